@@ -68,8 +68,12 @@ func (res *Response) Header() http.Header {
 //go:norace
 func (res *Response) WriteHeader(statusCode int) {
 	if !res.hijacked && res.statusCode == 0 && res.statusCode != statusCode {
-		status := http.StatusText(statusCode)
-		if status != "" {
+		if statusCode >= 100 && statusCode <= 999 {
+			status := http.StatusText(statusCode)
+			if status == "" {
+				// a code without a registered text is the handler's choice all the same.
+				status = "status code " + strconv.Itoa(statusCode)
+			}
 			res.status = status
 			res.statusCode = statusCode
 		}
